@@ -31,7 +31,8 @@ def timed_payloads():
     return [pose, gnss], [event, version]
 
 
-def make_log(rng, n, junk=True, sources=(0,), untimed_first=None, t_start=None, step_choices=(0, 0.25, 0.5, 1, 1, 2, 3.75)):
+def make_log(rng, n, junk=True, sources=(0,), untimed_first=None, t_start=None, step_choices=(0, 0.25, 0.5, 1, 1, 2, 3.75),
+             wrappers=True):
     """A log of n messages: timed (non-decreasing P1 times, multiples of 0.25 s), untimed, unknown types."""
     timed, untimed = timed_payloads()
     t = t_start if t_start is not None else rng.choice([0.0, 1.0, 2.5, 10.0, 100.25])
@@ -53,6 +54,11 @@ def make_log(rng, n, junk=True, sources=(0,), untimed_first=None, t_start=None, 
             ty, p, v = rng.choice([9, 2999]), bytes(rng.randrange(256) for _ in range(rng.choice([0, 3]))), 0
         parts.append(gen.frame(ty, p, seq, src, v))
         seq += 1
+        if wrappers and rng.random() < 0.12:
+            # a wrapper message whose payload holds a complete CRC-valid message: one message of the file, not two
+            inner = gen.frame(rng.choice([9, 10000]), bytes(rng.randrange(256) for _ in range(rng.choice([0, 3]))), seq + 500, src)
+            parts.append(gen.frame(13120, bytes(8) + inner, seq, src))
+            seq += 1
         if junk and rng.random() < 0.2:
             parts.append(bytes(rng.randrange(256) for _ in range(rng.choice([1, 5, 30]))))
     return b''.join(parts)
